@@ -10,8 +10,16 @@ for d in sorted(glob.glob(os.path.join(HERE, "seeded", "*"))):
         continue
     m = json.load(open(mp))
     c = json.load(open(cp)) if os.path.exists(cp) else {}
-    needs = re.sub(r"\*\*[^*]*\*\*:?", "", m.get("needs_to_manifest", "")).strip()[:170]
-    obl = "; ".join(o.replace("obligation: ", "") for o in c.get("obligations", [])[:3])
+    needs = m.get("needs_to_manifest", "")
+    needs = re.sub(r"^#+ [^.:]*?manifest\S*\s*", "", needs)
+    needs = re.sub(r"^[^:]{0,60}\*\*:?\s*", "", needs)
+    needs = re.sub(r"\*\*[^*]*\*\*:?", "", needs).replace("|", "/").strip()[:150]
+    seen_o = []
+    for o in c.get("obligations", []):
+        o = o.replace("obligation: ", "")
+        if o not in seen_o:
+            seen_o.append(o)
+    obl = "; ".join(seen_o[:2])
     by = c.get("caught_by") or ("-" if not c.get("caught") else "?")
     und = " (deductive part UNDECIDED: " + c["undecided"][0].split(": ", 1)[-1][:90] + ")" if c.get("undecided") else ""
     print(f"| {m['seed']} | {', '.join(os.path.basename(f) for f in m['files_changed'])} | {needs} | {c.get('exit')} | {by}: {obl}{und} |")
